@@ -63,8 +63,13 @@ func decodeString(f reflect.Type, t reflect.Type, data any) (any, error) {
 		return fmt.Sprintf("%v", data), nil
 	}
 	if f.Kind() == reflect.Ptr {
+		elem := reflect.ValueOf(data).Elem()
+		if !elem.IsValid() || (elem.Kind() == reflect.Interface && elem.IsNil()) {
+			// Nothing to dereference (nil pointer or pointer to a nil interface): leave the value to mapstructure
+			return data, nil
+		}
 		f = f.Elem()
-		data = reflect.ValueOf(data).Elem().Interface()
+		data = elem.Interface()
 	}
 	if f.Kind() != reflect.String {
 		return data, nil
